@@ -30,7 +30,7 @@ func c09Source(seed, idx uint64) (src string, optName string, opts func(sample *
 		if r.Chance(1, 3) {
 			// an environment function that changes its argument in place gets
 			// a value the expression created, never a constant of the program
-			src = r.Pick([]string{"RevInts(1..3)[0]", "RevInts([3, 1, 2])", "RevInts(1..5)", "RevInts((1..4)[1:3])", "[RevInts([1, 2]), RevInts([1, 2])]", "map(1..2, {RevInts([1, 2, 3])[0]})"})
+			src = r.Pick([]string{"RevInts(1..3)[0]", "RevInts([3, 1, 2])", "RevInts(1..5)", "RevInts((1..4)[1:3])", "RevInts((1..6)[2:])", "RevInts([7, 8, 9][:])[0]", "[RevInts([1, 2]), RevInts([1, 2])]", "map(1..2, {RevInts([1, 2, 3])[0]})"})
 			return src, "Env(Env)", func(s *envs.Env, _ *OpEnv) []expr.Option { return []expr.Option{expr.Env(*s)} }, false
 		}
 		src = r.Pick([]string{"PInc(A)", "PInc(1) + Inc(2)", "AddA(PInc(B))", "Inc(A) + AddA(1)", "map(Ints, {PInc(#)})", "It.Double() + PInc(2)", "A + B", "Cat(S, T)"})
